@@ -730,7 +730,7 @@ void vf_run(vf::Ctx& c)
     init_configs();
     // fill prefix: three elements into A, two into B (re-mapped to what the capacity allows)
     c03::run_pairs(c, {RawOp{0, 0, 0, 2}, RawOp{0, 0, 0, 4}, RawOp{0, 0, 0, 6}, RawOp{0, 0, 0, 3}, RawOp{0, 0, 0, 5}});
-    c03::run_histories(c, 700, 8000, 30);
+    c03::run_histories(c, 2000, 16000, 30);
 }
 
 std::string vf_replay(std::string const&, std::string const& cs)
